@@ -429,13 +429,13 @@ functioncall:
 
 args:
         '(' ')' {
-            if yylex.(*Lexer).PNewLine {
+            if $1.NewLine {
                yylex.(*Lexer).TokenError($1, "ambiguous syntax (function call x new statement)")
             }
             $$ = []ast.Expr{}
         } |
         '(' exprlist ')' {
-            if yylex.(*Lexer).PNewLine {
+            if $1.NewLine {
                yylex.(*Lexer).TokenError($1, "ambiguous syntax (function call x new statement)")
             }
             $$ = $2
